@@ -79,6 +79,9 @@ def install(s):
     B['@__verif_cover'] = cover
     def note(e, st, a, ins): st.notes.append(e.cstr(st, a[0]))
     B['@__verif_note'] = note
+    def havoc_range(e, st, a, ins):
+        st.havoc_range = (conc(e, st, a[0], 'range'), conc(e, st, a[1], 'range'))
+    B['@__verif_havoc_int_range'] = havoc_range
     def observe(e, st, a, ins):
         v = a[0]
         if isinstance(v, SV) and v.taint is True: e.check_vc(st, True, 'uninit', 'observed value depends on uninitialised memory')
